@@ -966,7 +966,9 @@ class MyPyAstVisitor:
                 if isinstance(inferred_default_value, bool | int | float | NoneType):
                     default_value = inferred_default_value
                 elif isinstance(inferred_default_value, str):
-                    default_value = f'"{inferred_default_value}"'
+                    # Backslashes and quotes have to be escaped, otherwise the string literal is closed too early
+                    escaped_value = inferred_default_value.replace("\\", "\\\\").replace('"', '\\"')
+                    default_value = f'"{escaped_value}"'
                 else:  # pragma: no cover
                     raise TypeError("Default value got an unsupported value.")
 
